@@ -18,6 +18,12 @@ Inputs are plain tuples (JSON-friendly lists), see ``apply``:
   ("uri", id, download, live)               set_uri
   ("seek", ms, ok)                          set_position
   ("tags?",)                                get_current_tags
+  ("warn",) ("async",) ("elem", missing)    WARNING / ASYNC_DONE / ELEMENT (missing-plugin or not)
+  ("pos?", ok, position_ns)                 get_position; the pipeline answers (ok, position)
+  ("atfcb", present) ("srccb", present)     set_about_to_finish_callback / set_source_setup_callback
+  ("atf", in_actor_thread, next|None)       playbin "about-to-finish"; next = [id, download, live] is
+                                            the set_uri the registered callback performs
+  ("src", has_factory, has_is_live, has_proxy_prop, proxy_host)   playbin "source-setup"
 """
 
 from __future__ import annotations
@@ -27,7 +33,7 @@ import copy
 STATES = ["VOID_PENDING", "NULL", "READY", "PAUSED", "PLAYING"]
 MODES = ["STREAM", "DOWNLOAD", "TIMESHIFT", "LIVE"]
 TAG_NAMES = ["title", "artist", "album", "bitrate", "organization", "genre", "datetime", "image"]
-OTHER_KINDS = ["WARNING", "ASYNC_DONE", "ELEMENT", "INFO", "UNKNOWN"]
+OTHER_KINDS = ["INFO", "UNKNOWN"]
 
 
 def uri_of(i):
@@ -121,7 +127,7 @@ class FakeElement:
         return True
 
     def query_position(self, _fmt):
-        return (False, 0)
+        return self.rig.next_position_result()
 
     def get_bus(self):
         return self.bus
@@ -144,6 +150,32 @@ class FakeElement:
 
     def link(self, *_a):
         return True
+
+
+class _Props:
+    pass
+
+
+class FakeSource:
+    """The element handed to source-setup: optional factory, optional is_live / proxy props."""
+
+    def __init__(self, rig, has_factory, has_is_live, has_proxy):
+        self.rig = rig
+        self._factory = object() if has_factory else None
+        self.props = _Props()
+        if has_is_live:
+            self.props.is_live = False
+        if has_proxy:
+            self.props.proxy = None
+
+    def get_factory(self):
+        return self._factory
+
+    def set_live(self, value):
+        self.rig.cmd("source", "live", bool(value), None)
+
+    def set_property(self, name, value):
+        self.rig.cmd("source", "prop", name, value)
 
 
 class FakeTagList:
@@ -269,6 +301,8 @@ class Rig:
         self._events = []  # (name, kwargs as sent, send-time snapshot)
         self._state_results = []
         self._seek_results = []
+        self._pos_results = []
+        self._atf_next = None
         self.elements = {}
 
         def capture(cls, event, **kwargs):
@@ -289,8 +323,12 @@ class Rig:
 
         self._orig_factory = Gst.__dict__.get("ElementFactory")
         Gst.ElementFactory = Factory
+        # whether an ELEMENT message is a missing-plugin message is GstPbutils' answer (input)
+        self._pbutils = actor_mod.GstPbutils
+        self._orig_missing = self._pbutils.__dict__.get("is_missing_plugin_message")
+        self._pbutils.is_missing_plugin_message = lambda msg: bool(msg.payload.get("missing", True))
 
-        config = {"audio": {"mixer": "software", "output": "testoutput", "buffer_time": None,
+        self.config = config = {"audio": {"mixer": "software", "output": "testoutput", "buffer_time": None,
                             "mixer_volume": None},
                   "proxy": {}}
         self.sw_mixer = None
@@ -360,6 +398,13 @@ class Rig:
 
     def close(self):
         self._listener_mod.send = self._orig_send
+        if self._orig_missing is None:
+            try:
+                del self._pbutils.is_missing_plugin_message
+            except AttributeError:
+                pass
+        else:
+            self._pbutils.is_missing_plugin_message = self._orig_missing
         if self._orig_factory is None:
             try:
                 del self.Gst.ElementFactory
@@ -380,8 +425,21 @@ class Rig:
             return self.rng.choice([R.SUCCESS, R.ASYNC, R.FAILURE, R.NO_PREROLL])
         return R.SUCCESS
 
+    def next_position_result(self):
+        return self._pos_results.pop(0) if self._pos_results else (False, 0)
+
     def next_seek_result(self):
         return self._seek_results.pop(0) if self._seek_results else True
+
+    # --- callbacks registered on Audio
+    def _atf_callback(self):
+        self.cmd("cb", "atf", None, None)
+        nxt, self._atf_next = self._atf_next, None
+        if nxt is not None:
+            self.audio.set_uri(uri_of(nxt[0]), live_stream=bool(nxt[2]), download=bool(nxt[1]))
+
+    def _source_callback(self, source):
+        self.cmd("cb", "source", None, None)
 
     # --- raw values for tag lists
     def raw_value(self, raw):
@@ -437,6 +495,31 @@ class Rig:
                 self.playbin.bus.deliver(FakeMessage(MT.EOS, self.playbin))
             elif k == "err":
                 self.playbin.bus.deliver(FakeMessage(MT.ERROR, self.playbin, error=self.GLib.Error("boom")))
+            elif k == "warn":
+                self.playbin.bus.deliver(FakeMessage(MT.WARNING, self.playbin, error=self.GLib.Error("warn")))
+            elif k == "async":
+                self.playbin.bus.deliver(FakeMessage(MT.ASYNC_DONE, self.playbin))
+            elif k == "elem":
+                self.playbin.bus.deliver(FakeMessage(MT.ELEMENT, self.playbin, missing=bool(inp[1])))
+            elif k == "pos?":
+                self._pos_results.append((bool(inp[1]), inp[2]))
+                ret = ("pos", int(a.get_position()))
+            elif k == "atfcb":
+                a.set_about_to_finish_callback(self._atf_callback if inp[1] else None)
+            elif k == "srccb":
+                a.set_source_setup_callback(self._source_callback if inp[1] else None)
+            elif k == "atf":
+                import threading
+
+                # Audio.on_start records the actor thread; the signal arrives either in it or in
+                # a GStreamer streaming thread
+                a._thread = threading.current_thread() if inp[1] else threading.Thread(target=lambda: None)
+                self._atf_next = inp[2]
+                self.playbin.signals["about-to-finish"](self.playbin)
+            elif k == "src":
+                self.config["proxy"] = ({"hostname": "proxy.example", "scheme": "https", "port": 8080,
+                                         "username": "u", "password": "p"} if inp[4] else {"hostname": ""})
+                self.playbin.signals["source-setup"](self.playbin, FakeSource(self, inp[1], inp[2], inp[3]))
             elif k == "other":
                 mt = getattr(MT, inp[1])
                 self.playbin.bus.deliver(FakeMessage(mt, self.playbin, error=self.GLib.Error("warn")))
@@ -458,6 +541,8 @@ class Rig:
                 raise ValueError(f"unknown input {inp!r}")
         except KeyError:
             ret = ("raise", "KeyError")
+        except self.actor_mod.exceptions.AudioException:
+            ret = ("raise", "AudioException")
         except Exception as e:  # noqa: BLE001
             ret = ("raise", type(e).__name__)
         self._state_results.clear()
